@@ -66,6 +66,7 @@ func runC05(w *World, r *Report) {
 	r.Rule("codes", "the code a constructor stores selects, in the dispatcher, the kind that constructor returns", 30)
 	r.Rule("retain", "elements decoded in list loops are stored into the receiver", 8)
 	r.Rule("extent", "the size an element reports (by which list decoders advance) equals the bytes its encoder produces", 100)
+	r.Rule("exhaust", "list-decoding loops run while any element can remain", 10)
 	r.Rule("fresh", "a value decoded into inside a list loop is new in each iteration (or fully overwritten by the child decoder)", 12)
 
 	nKinds := 0
@@ -166,6 +167,7 @@ func runC05(w *World, r *Report) {
 		}
 		retainRule(w, r, dfi)
 		freshRule(w, r, dfi)
+		exhaustRule(w, r, dfi)
 	}
 }
 
@@ -937,5 +939,123 @@ func freshRule(w *World, r *Report, dfi *FuncInfo) {
 			return true
 		})
 		return true // an inner loop is visited again with its own body as the scope
+	})
+}
+
+// minInput: the least input length with which the decoder can succeed (largest constant K with K <= len(P)
+// among the facts of its successful returns); 1 when unknown.
+func minInput(w *World, fn *types.Func) int64 {
+	fi := w.FuncOf(fn)
+	if fi == nil {
+		return 1
+	}
+	fs := w.Interpret(fi, "decode")
+	best := int64(-1)
+	for _, rt := range fs.Rets {
+		if rt.IsErr || rt.St == nil {
+			continue
+		}
+		k := int64(1)
+		for _, f := range rt.St.facts {
+			if f.Cond != "" || f.L == nil || f.R == nil {
+				continue
+			}
+			d := f.R.Sub(f.L) // fact: L <= R
+			// K <= len(P)  ⇔  R - L = len(P) - K
+			if a := d.AddC(-d.C).SingleAtom(); a != nil && a.Kind == "len" && a.Path == "P" && d.K[a.Key()] == 1 && -d.C > k {
+				k = -d.C
+			}
+		}
+		if best < 0 || k < best {
+			best = k
+		}
+	}
+	if best < 1 {
+		return 1
+	}
+	return best
+}
+
+// exhaustRule: a loop that decodes list elements runs as long as any element can remain: its condition
+// compares the cursor itself with the end of the list. A condition that stops early by c bytes
+// (`n+c < end`, `n < end-c`) loses a trailing element of at most c bytes, when the element kind can be
+// that small.
+func exhaustRule(w *World, r *Report, dfi *FuncInfo) {
+	info := dfi.Pkg.TypesInfo
+	li := 0
+	ast.Inspect(dfi.Decl.Body, func(n ast.Node) bool {
+		fs, ok := n.(*ast.ForStmt)
+		if !ok || fs.Cond == nil {
+			return true
+		}
+		// child decoders called in the body
+		var children []*types.Func
+		ast.Inspect(fs.Body, func(m ast.Node) bool {
+			if c, ok := m.(*ast.CallExpr); ok {
+				if se, ok := unparen(c.Fun).(*ast.SelectorExpr); ok && (se.Sel.Name == "UnmarshalBinary" || strings.HasPrefix(se.Sel.Name, "Decode")) {
+					if fn, ok := info.Uses[se.Sel].(*types.Func); ok {
+						children = append(children, fn)
+					}
+				}
+				if id, ok := unparen(c.Fun).(*ast.Ident); ok && (strings.HasPrefix(id.Name, "Decode") || id.Name == "Parse") {
+					if fn, ok := info.Uses[id].(*types.Func); ok {
+						children = append(children, fn)
+					}
+				}
+			}
+			return true
+		})
+		be, ok := unparen(fs.Cond).(*ast.BinaryExpr)
+		if !ok || len(children) == 0 {
+			return true
+		}
+		var small, big ast.Expr
+		strict := true
+		switch be.Op {
+		case token.LSS:
+			small, big = be.X, be.Y
+		case token.GTR:
+			small, big = be.Y, be.X
+		case token.LEQ:
+			small, big, strict = be.X, be.Y, false
+		case token.GEQ:
+			small, big, strict = be.Y, be.X, false
+		default:
+			return true
+		}
+		li++
+		inst := fmt.Sprintf("loop#%d", li)
+		constOf := func(e ast.Expr) (int64, bool) { return constIntOf(info, e) }
+		slack := int64(0)
+		if b, ok := unparen(small).(*ast.BinaryExpr); ok && b.Op == token.ADD {
+			if c, ok := constOf(b.Y); ok {
+				slack += c
+			} else if c, ok := constOf(b.X); ok {
+				slack += c
+			}
+		}
+		if b, ok := unparen(big).(*ast.BinaryExpr); ok && b.Op == token.SUB {
+			if c, ok := constOf(b.Y); ok {
+				slack += c
+			}
+		}
+		if !strict {
+			slack-- // n+c <= end  ⇔  n+c-1 < end
+		}
+		k := int64(1 << 30)
+		for _, ch := range children {
+			if m := minInput(w, ch); m < k {
+				k = m
+			}
+		}
+		pos := w.Pos(fs.Pos())
+		if slack > 0 && k <= slack {
+			r.Fail(VViolation, "exhaust", dfi.Key, inst, pos, fmt.Sprintf("the loop condition %s stops while up to %d bytes of the list remain, and an element can be as small as %d bytes: a trailing element of that size is never decoded", types.ExprString(fs.Cond), slack, k))
+		} else if slack > 0 {
+			r.OK("exhaust", dfi.Key, inst, pos, fmt.Sprintf("the condition leaves at most %d bytes, fewer than the smallest element (%d bytes)", slack, k), true)
+		} else {
+			r.OK("exhaust", dfi.Key, inst, pos, "the loop runs while the cursor is below the end of the list", false)
+		}
+		return true
 	})
 }
